@@ -147,3 +147,9 @@ _GEN = {}
 
 def _gen_call(chunk):
     return _GEN["fn"](chunk)
+
+
+def many_of(tid):
+    """Table-size class of trace `tid`: "mid" = tables of several hundred entries, "big" = tables of several thousand entries
+    (more than any page, chunk or cache the reader might split them into), None = a handful."""
+    return "mid" if tid % 8 == 0 else "big" if tid % 8 == 4 else None
